@@ -438,6 +438,18 @@ class Interp:
             return [('ret', v, c) for v, c in self.ev(n['e'], cx)]
         if k in ('null',):
             return [('fall', None, cx)]
+        if (k == 'bin' and n.get('op') == '=') or (k == 'call' and n.get('op') == '=' and n.get('obj') is not None and len(n.get('args', [])) == 1):
+            # assignment to a local position variable
+            l = A.strip(n.get('lhs') if k == 'bin' else n.get('obj'))
+            r = n.get('rhs') if k == 'bin' else n['args'][0]
+            if isinstance(l, dict) and l.get('k') == 'ref' and l.get('dk') == 'local':
+                outs = []
+                for val, c2 in self.ev(r, cx):
+                    env = dict(c2.env)
+                    env[l['did']] = val
+                    outs.append(('fall', None, c2.but(env=env)))
+                return outs
+            raise Unknown('assignment to something that is not a local')
         if k in A.LOOPS:
             raise Unknown('loop')
         if k == 'call' and A.callee(n) != '__assert_fail' and not ('assert' in (n.get('mac') or [])):
